@@ -323,14 +323,16 @@ def compare(histories, driver_path=None, check_ref=True, limit=20):
 
 
 def twin_probe(driver_path=None):
-    """Known deviation (not part of the pool of the property, which has no way to tell twins
-    apart): `pop(i)` returns the first *textual twin* stored in `.all`, not the list item."""
+    """Witness of the former deviation of `pop` (it used to return the first *textual twin*
+    stored in `.all`, i.e. the object at position 3): since the repair the implementation, the
+    model and the list must all hand back the list item (position 7)."""
     h = ['a:g@3:' + S_A, 'a:g@7:' + S_A, 'p:1']
     a, r = impl_run(h), ref_run(h)
     m = model_run_many([h], driver_path)[0]
     return {'ops': ';'.join(h), 'impl': a.split(';')[-1], 'model': m.split(';')[-1],
             'list': r.split(';')[-1], 'impl_equals_model': a == m,
-            'impl_differs_from_list': drop_all(a) != r}
+            'impl_equals_list': drop_all(a) == r,
+            'ok': a == m and drop_all(a) == r}
 
 
 def selftest(driver_path=None, depth=3, nrandom=2000, maxlen=40, verbose=True):
@@ -339,26 +341,22 @@ def selftest(driver_path=None, depth=3, nrandom=2000, maxlen=40, verbose=True):
     n1, bad1 = compare(bfs_histories(depth), driver_path)
     t1 = time.time()
     rng = common.rng('lib_args')
-    # random histories use twins with different positions: the list reference is compared on
-    # texts there (positions of popped twins differ by design, see twin_probe)
+    # random histories use a richer pool, including textual twins at different positions:
+    # returned items are compared with the list reference position and all
     hs = random_histories(rng, nrandom, maxlen)
-    n2, bad2 = compare(hs, driver_path, check_ref=False)
-    bad3 = []
-    pos = re.compile(r'\(g (bracket|brace) -?\d+ ')
-    for h in hs:
-        a, r = drop_all(impl_run(h)), ref_run(h)
-        if pos.sub(r'(g \1 P ', a) != pos.sub(r'(g \1 P ', r):
-            bad3.append({'kind': 'impl-vs-list(text)', 'ops': ';'.join(h), 'impl': a, 'list': r})
+    n2, bad2 = compare(hs, driver_path)
     t2 = time.time()
     probe = twin_probe(driver_path)
+    if not probe['ok']:
+        bad2 = bad2 + [dict(probe, kind='twin-probe')]
     res = {'bfs_depth': depth, 'bfs_histories': n1, 'bfs_disagreements': bad1,
-           'random_histories': n2, 'random_disagreements': bad2 + bad3,
+           'random_histories': n2, 'random_disagreements': bad2,
            'twin_probe': probe, 'seconds': (round(t1 - t0, 1), round(t2 - t1, 1))}
     if verbose:
         print('lib_args selftest: BFS depth %d: %d histories, %d disagreements (%.1fs); '
               'random: %d histories, %d disagreements (%.1fs)' %
-              (depth, n1, len(bad1), t1 - t0, n2, len(bad2) + len(bad3), t2 - t1))
-        for b in (bad1 + bad2 + bad3)[:10]:
+              (depth, n1, len(bad1), t1 - t0, n2, len(bad2), t2 - t1))
+        for b in (bad1 + bad2)[:10]:
             print('  ', b)
         print('   twin probe:', probe)
     return res
